@@ -344,7 +344,19 @@ void ref_model(const row_t *row, const gcase_t *c, const unsigned char *d0, cons
             m->known = 1; m->expect = MX_VALUE; m->ret = dl >= 6 && lo >= 2 && up >= 2 && nu >= 1 && sp >= 1;
             return;
         }
-        if (!strcmp(nm, "strismixedcase_s")) return; /* doc ambiguous */
+        if (!strcmp(nm, "strismixedcase_s")) {
+            /* "checks that the entire string is mixed case": judged only where every reading agrees -- letters of both cases
+             * and nothing else is true, any ASCII non-letter is false; one-case strings and non-ASCII bytes are left open */
+            int lo = 0, up = 0, other = 0;
+            for (i = 0; i < dl; i++) {
+                unsigned char ch = d0[i];
+                if (ch >= 128) return;
+                if (ch >= 'a' && ch <= 'z') lo = 1; else if (ch >= 'A' && ch <= 'Z') up = 1; else other = 1;
+            }
+            if (other) { m->known = 1; m->expect = MX_VALUE; m->ret = 0; }
+            else if (lo && up) { m->known = 1; m->expect = MX_VALUE; m->ret = 1; }
+            return;
+        }
         for (i = 0; i < dl; i++) {
             unsigned char ch = d0[i];
             if (!strcmp(nm, "strisalphanumeric_s")) ok &= (ch < 128 && isalnum(ch));
